@@ -78,6 +78,7 @@ class StreamItemQueue:
         self._aborted = False
         self._finished = False
         self._stopped = False
+        self._cleaned = False
         if eager:
             try:
                 get_running_loop()
@@ -105,11 +106,9 @@ class StreamItemQueue:
             if pending:
                 await gather(*pending, return_exceptions=True)
             self._aborted = True
-            on_abort = self._on_abort
-            if on_abort is not None:
-                cleanup = on_abort(error)
-                if is_awaitable(cleanup):
-                    await cleanup
+            cleanup = self._run_on_abort(error)
+            if is_awaitable(cleanup):
+                await cleanup
             self._producer_parked = True  # may park on the full queue
             await entries.put(_ErrorEntry(error))
         else:
@@ -218,13 +217,19 @@ class StreamItemQueue:
             future.cancel()
         if not running and not self._pending_futures:
             # nothing to cancel asynchronously, just run the cleanup callback
-            on_abort = self._on_abort
-            if on_abort is not None:
-                cleanup = on_abort(reason)
-                if is_awaitable(cleanup):
-                    return cleanup
+            cleanup = self._run_on_abort(reason)
+            if is_awaitable(cleanup):
+                return cleanup
             return None
         return self._cleanup(reason)
+
+    def _run_on_abort(self, reason: BaseException | None) -> Any:
+        """Run the abort callback, at most once in the lifetime of the queue."""
+        on_abort = self._on_abort
+        if on_abort is None or self._cleaned:
+            return None
+        self._cleaned = True
+        return on_abort(reason)
 
     async def _settle_parked(self) -> None:
         """Await the cancelled parked producer and settle pending item futures."""
@@ -250,8 +255,6 @@ class StreamItemQueue:
             self._producer_cancelled = True
             await gather(producer_task, return_exceptions=True)
         await self._settle_pending()
-        on_abort = self._on_abort
-        if on_abort is not None:
-            cleanup = on_abort(reason)
-            if is_awaitable(cleanup):
-                await cleanup
+        cleanup = self._run_on_abort(reason)
+        if is_awaitable(cleanup):
+            await cleanup
